@@ -572,6 +572,41 @@ func (w *nsWorld) checkTunnelBinding(xi int, a netip.Addr, h *HostInfo) string {
 	return ""
 }
 
+// checkPending verifies that the two halves of every pending handshake's state go together: an
+// index entry always has its address entry and the other way round (once an index is allocated).
+func (w *nsWorld) checkPending(rt *rapid.T) {
+	for i, x := range w.nodes {
+		if !w.live(i) {
+			continue
+		}
+		hs := x.ctrl.f.handshakeManager
+		hs.RLock()
+		for idx, hh := range hs.indexes {
+			if idx == 0 {
+				hs.RUnlock()
+				rt.Fatalf("node %s: pending handshake under index 0", x.name)
+			}
+			owned := false
+			for _, cur := range hs.vpnIps {
+				if cur == hh {
+					owned = true
+				}
+			}
+			if !owned {
+				hs.RUnlock()
+				rt.Fatalf("node %s: pending index %d (handshake for %v) has no address entry any more: it can never be retried, completed or abandoned", x.name, idx, hh.hostinfo.vpnAddrs)
+			}
+		}
+		for a, hh := range hs.vpnIps {
+			if id := hh.hostinfo.localIndexId; id != 0 && hs.indexes[id] != hh {
+				hs.RUnlock()
+				rt.Fatalf("node %s: pending handshake for %v lost its index entry %d", x.name, a, id)
+			}
+		}
+		hs.RUnlock()
+	}
+}
+
 // keyProbe reports whether ciphertext produced by enc's sending key opens with dec's receiving key.
 func nsKeysPair(enc, dec *HostInfo) bool {
 	if enc.ConnectionState == nil || dec.ConnectionState == nil {
